@@ -69,6 +69,9 @@ func init() {
 			panic(engineErr("json.Decoder not created by the model"))
 		}
 		if db := docStreamOf(c.rw); db != nil {
+			if db.yaml && len(db.docs) > 0 {
+				return fr.m.errIface("invalid character looking for beginning of value"), true
+			}
 			if c.pos == db.malformedAt {
 				return fr.m.errIface("invalid character '{' after object key:value pair"), true
 			}
